@@ -685,7 +685,7 @@ next:
 			if prevNonComment != nil {
 				if r, ok := rule.Data.(*css_ast.RSelector); ok {
 					if prev, ok := prevNonComment.(*css_ast.RSelector); ok && css_ast.RulesEqual(r.Rules, prev.Rules, nil) &&
-						isSafeSelectors(r.Selectors) && isSafeSelectors(prev.Selectors) {
+						isSafeSelectors(r.Selectors) && isSafeSelectors(prev.Selectors) && !containsNestedRules(r.Rules) {
 					nextSelector:
 						for _, sel := range r.Selectors {
 							for _, prevSel := range prev.Selectors {
@@ -720,6 +720,21 @@ next:
 	}
 
 	return mangledRules
+}
+
+// Merging "a { X }" and "b { X }" into "a, b { X }" is only correct if "X"
+// consists of declarations. A nested rule means something else under the merged
+// selector list: "&" stands for ":is(a, b)", which has the greater of the two
+// specificities and changes what ":not(&)" matches.
+func containsNestedRules(rules []css_ast.Rule) bool {
+	for _, rule := range rules {
+		switch rule.Data.(type) {
+		case *css_ast.RDeclaration, *css_ast.RBadDeclaration, *css_ast.RComment:
+		default:
+			return true
+		}
+	}
+	return false
 }
 
 type ruleEntry struct {
